@@ -10,6 +10,7 @@ import (
 
 	mqtt "github.com/eclipse/paho.mqtt.golang"
 	"github.com/orda-io/orda/client/pkg/context"
+	"github.com/orda-io/orda/client/pkg/iface"
 	"github.com/orda-io/orda/client/pkg/model"
 	"github.com/orda-io/orda/client/pkg/vf"
 	"github.com/orda-io/orda/server/managers"
@@ -200,3 +201,5 @@ func (w *vfWorld) collection(num int32) *schema.CollectionDoc {
 	}
 	return &schema.CollectionDoc{Name: "?", Num: num}
 }
+
+func context0() iface.OrdaContext { return context.NewOrdaContext(gocontext.TODO(), "vf") }
